@@ -114,6 +114,7 @@ def outline_case(draw):
         big = None
     return {"outline": outline, "schema": draw(st.sampled_from(SCHEMAS)), "edits": edits, "big": big,
             "preview": draw(st.sampled_from([0, 0, 1, 2, 3])),
+            "tagsel": draw(st.sampled_from([None, None, None, "e1", "no_such_tag", "not e2"])),
             "in_rule": draw(st.booleans()), "noise": draw(st.lists(st.integers(0, 200), max_size=6))}
 
 
@@ -211,6 +212,12 @@ def check(case):
     if case.get("schema"):
         oobj.annotation_schema = case["schema"]
     before = template_snapshot(oobj)
+    if case.get("tagsel"):
+        # a --tags selection that is decided by the rows (not by the outline's own tags) asks the outline first:
+        # what it then hands out are still the scenarios described by the statement (names by the configured schema)
+        from behave.tag_expression import make_tag_expression
+        oobj.should_run_with_tags(make_tag_expression(case["tagsel"]))
+        res.label("asked-for-tag-selection-before-expansion")
     examples = []
     for ex, fe in zip(outline["ex"], ofacts["examples"]):
         examples.append({"name": ex["name"], "tags": list(ex["tags"]), "cols": list(ex["cols"]),
@@ -388,7 +395,7 @@ def explore(rec):
 def required_labels(tier):
     return ["rows:3", "blocks:0", "blocks:2", "column-orders-differ", "parametrised-tag", "placeholder-in-docstring",
             "placeholder-in-table", "schema", "table-edits", "table-edits:remove_columns-partly-done",
-            "table-edits:failed-build-then-rebuilt", "big:wide", "big:tall", "big:sections", "row-preview"]
+            "table-edits:failed-build-then-rebuilt", "big:wide", "big:tall", "big:sections", "row-preview", "asked-for-tag-selection-before-expansion"]
 
 
 KNOWN_PREDICATES = {}
